@@ -418,17 +418,25 @@ fn substring(
 ) -> error::Result<model::Value> {
     let mut args = args.iter();
     let v = String::try_from(args.next().unwrap())?;
-    let s = f64::try_from(args.next().unwrap())?.round() as usize - 1;
-    let c = if let Some(v) = args.next() {
-        Some(f64::try_from(v)?.round() as usize)
+    let start = model::round(f64::try_from(args.next().unwrap())?);
+    let length = if let Some(v) = args.next() {
+        Some(model::round(f64::try_from(v)?))
     } else {
         None
     };
-    let (_, mut r) = v.split_at(s);
-    if let Some(c) = c {
-        (r, _) = r.split_at(c);
+    let mut r = String::new();
+    for (i, ch) in v.chars().enumerate() {
+        let position = (i + 1) as f64;
+        let end = if let Some(length) = length {
+            position < start + length
+        } else {
+            true
+        };
+        if position >= start && end {
+            r.push(ch);
+        }
     }
-    Ok(model::Value::Text(r.to_string()))
+    Ok(model::Value::Text(r))
 }
 
 fn string_length(
@@ -441,7 +449,9 @@ fn string_length(
     } else {
         &model::Value::Node(vec![node])
     };
-    Ok(model::Value::Number(String::try_from(arg)?.len() as f64))
+    Ok(model::Value::Number(
+        String::try_from(arg)?.chars().count() as f64
+    ))
 }
 
 fn normalize_space(
@@ -455,7 +465,10 @@ fn normalize_space(
         &model::Value::Node(vec![node])
     };
     let r = String::try_from(arg)?;
-    let w = r.split_whitespace().collect::<Vec<&str>>();
+    let w = r
+        .split(|c| matches!(c, ' ' | '\t' | '\r' | '\n'))
+        .filter(|v| !v.is_empty())
+        .collect::<Vec<&str>>();
     Ok(model::Value::Text(w.join(" ")))
 }
 
@@ -595,5 +608,5 @@ fn round(
     _: &mut model::Context,
 ) -> error::Result<model::Value> {
     let arg = f64::try_from(args.first().unwrap())?;
-    Ok(model::Value::Number(arg.round()))
+    Ok(model::Value::Number(model::round(arg)))
 }
